@@ -61,15 +61,15 @@ Section Sound.
     match mk with
     | MWith | MOff | MAbove | MBelow | MFork | MBracket | MTry | MDipN _
     | MReduce | MScan | MFold | MRows | MEach | MInventory | MTable | MTuples | MGroup | MPartition
-    | MSpawn | MPool | MRepeat => true
+    | MSpawn | MPool | MRepeat | MRepeatWithInverse | MStencil | MReduceContent | MReduceDepth _ => true
     | _ => false end.
   (** modifiers checked in context whose run-time form uses the stored signature *)
   Definition needs_exact (mk : modk) : bool :=
-    match mk with MBy | MRows | MEach | MInventory | MRepeat => true | _ => false end.
+    match mk with MBy | MRows | MEach | MInventory | MRepeat | MRepeatWithInverse => true | _ => false end.
   Definition is_iter (mk : modk) : bool :=
     match mk with
     | MReduce | MScan | MFold | MRows | MEach | MInventory | MTable | MTuples | MGroup | MPartition
-    | MSpawn | MPool | MRepeat => true
+    | MSpawn | MPool | MRepeat | MStencil | MReduceContent | MReduceDepth _ => true
     | _ => false end.
 
   (** the tree invariant the compiler is expected to establish (validated on real compiler
@@ -438,6 +438,9 @@ Section Sound.
     - (* Tuples *) inversion Hv; subst; clear Hv.
       rewrite (handle_sig_noU sg sk un _ _ U1 U2 S2) in *. cbn [fst snd] in *.
       apply iter_exec_post; auto.
+    - (* Stencil *) inversion Hv; subst; clear Hv.
+      destruct (sa sg <=? 1); unfold handle_ao, epop in *; cbn [fst snd] in *; rewrite ?vao_vpop1 in *;
+        apply iter_exec_post; auto; try (eapply body_frames_of_framed; eauto).
     - (* Group *) inversion Hv; subst; clear Hv. cbn [handle_ao fst snd] in *.
       apply iter_exec_post; auto; try (eapply body_frames_of_framed; eauto).
     - (* Partition *) inversion Hv; subst; clear Hv. cbn [handle_ao fst snd] in *.
@@ -446,6 +449,52 @@ Section Sound.
       apply iter_exec_post; auto. intros ? ? ? ? ? ?. exact I.
     - (* Pool *) inversion Hv; subst; clear Hv. cbn [handle_ao fst snd] in *.
       apply iter_exec_post; auto. intros ? ? ? ? ? ?. exact I.
+    - (* ReduceDepth *) inversion Hv; subst; clear Hv. cbn [handle_ao fst snd] in *.
+      apply iter_exec_post; auto; try (eapply body_frames_of_framed; eauto).
+    - (* ReduceContent *) inversion Hv; subst; clear Hv. cbn [handle_ao fst snd] in *.
+      apply iter_exec_post; auto; try (eapply body_frames_of_framed; eauto).
+  Qed.
+
+  Lemma iter_exec_nn_post body tag na no fa fo sk un init uinit s :
+    body_frames body fa fo (skipn na (stk s)) (und s) (hid s) ->
+    sim sk init (stk s) -> sim un uinit (und s) ->
+    m (vao na no sk) <= length init -> m un <= length uinit ->
+    post (vao na no sk, un) init uinit s (iter_exec_nn pknown psem body tag na no fa fo s).
+  Proof.
+    intros Hb S1 S2 F1 F2. unfold iter_exec_nn.
+    pose proof (iter_exec_post body tag na no fa fo sk un init uinit s Hb S1 S2 F1 F2) as Hp.
+    destruct (need na s); auto.
+    destruct (psem ITER_N _ _) as [[|[n|] [|]]|]; auto.
+    destruct (n <? 0)%Z; auto. exact I.
+  Qed.
+
+  (** repeat with an inverse operand (non-negative counts) *)
+  Lemma repeat_inv_post fuel : P fuel -> asm_ok ->
+    forall sg f si g d e e' init uinit s,
+    tree_ok (Mod MRepeatWithInverse [(sg, f); (si, g)]) ->
+    vnode d (Mod MRepeatWithInverse [(sg, f); (si, g)]) e = Some e' ->
+    fits e' init uinit -> sim2 e init uinit s ->
+    post e' init uinit s (exec (S fuel) (Mod MRepeatWithInverse [(sg, f); (si, g)]) s).
+  Proof.
+    intros HP HA sg f si g d [sk un] e' init uinit s Ht Hv [F1 F2] [S1 S2].
+    cbn [tree_ok fst snd] in Ht. destruct Ht as (_ & HnoU & Hex & Tf & Of & _).
+    specialize (HnoU eq_refl). inversion HnoU as [|? ? [U1 U2] _]; subst; cbn [fst] in *.
+    specialize (Hex eq_refl). inversion Hex as [|? ? (e0 & V0 & Es) _]; subst; cbn [fst snd] in *.
+    pose proof (framed_of_P _ _ _ HP HA Tf Of) as Fr.
+    cbn [vnode] in Hv. destruct (MAX_NODE_DEPTH <? d); [discriminate|].
+    cbn [Exec.exec iter_ao mk_tag].
+    destruct (sig_eqb (sig_inverse sg) si); cbn [negb]; [|exact I].
+    destruct (vnode (S d) f (epop 1 (sk, un))) as [e1|] eqn:E1; cbn [opt_bind] in Hv; [|discriminate].
+    assert (S1p : wfe (epop 1 (sk, un))).
+    { split; cbn [epop fst snd]; [apply wfv_vpop|]; eapply sim_nonneg; eauto. }
+    rewrite (vnode_ctx f (S d) (epop 1 (sk, un)) e1 e0 S1p E1 V0) in Hv.
+    rewrite Es in Hv. unfold epop in Hv. cbn [fst snd] in Hv.
+    rewrite (handle_sig_noU sg (vpop 1 sk) un _ _ U1 U2 S2) in Hv. cbn [fst snd] in Hv.
+    destruct (sa sg <? so sg) eqn:Elt; inversion Hv; subst; clear Hv; cbn [fst snd] in *.
+    + apply Nat.ltb_lt in Elt. rewrite vpop_vao_lt in * by auto.
+      apply iter_exec_nn_post; auto. eapply body_frames_without_fill; eauto.
+    + rewrite vao_vpop1 in *.
+      apply iter_exec_nn_post; auto. eapply body_frames_without_fill; eauto.
   Qed.
 
   (** ---- by ---- *)
@@ -613,6 +662,10 @@ Section Sound.
     - exact I.
     - destruct (match n with Switch _ _ _ => true | _ => false end) eqn:Esw.
       { destruct n; try discriminate Esw. eapply switch_post; eauto. }
+      destruct (match n with Mod MRepeatWithInverse [_; _] => true | _ => false end) eqn:Eri.
+      { destruct n; try discriminate Eri. destruct m; try discriminate Eri.
+        destruct args as [|[sg f] [|[si g] [|? ?]]]; try discriminate Eri.
+        eapply repeat_inv_post; eauto. }
       destruct (match n with Mod mk [_] => is_iter mk || match mk with MBy => true | _ => false end | _ => false end) eqn:Ei.
       { destruct n; try discriminate Ei. destruct args as [|[sg f] [|? ?]]; try discriminate Ei.
         destruct (is_iter m) eqn:Ei2.
@@ -1021,9 +1074,25 @@ Section Sound.
         * destruct Hp as [[A B] Hh]. split; [split; auto|].
           unfold hid in *. cbn [fills fbs depth] in *. inversion Hh as [[H1 H2 H3]].
           rewrite H1, H2, H3. reflexivity.
+      + (* CallGlobal: a constant binding *)
+        inversion Hv; subst; clear Hv. destruct e as [sk un]. destruct S as [S1 S2]. destruct F as [F1 F2].
+        destruct (Nat.eqb_spec (sa s0) 0) as [A0|]; [|exact I].
+        destruct (Nat.eqb_spec (so s0) 1) as [O1|]; [|exact I].
+        destruct (Nat.eqb_spec (sua s0) 0) as [U1|]; [|exact I].
+        destruct (Nat.eqb_spec (suo s0) 0) as [U2|]; [|exact I]. cbn [andb].
+        rewrite (handle_sig_noU s0 sk un _ _ U1 U2 S2) in *. rewrite A0, O1 in *. cbn [fst snd] in *.
+        destruct (pknown GLOBAL_GET [SInt (Z.of_nat i)]); cbn [negb]; [|exact I].
+        destruct (psem GLOBAL_GET (fillctx s) [SInt (Z.of_nat i)]) as [[|v [|? ?]]|]; try exact I.
+        * apply post_ok; auto. split; senv; auto.
+          change (v :: stk s) with ([v] ++ skipn 0 (stk s)). apply sim_ao; auto.
+        * apply post_err; auto. split; senv; [eapply simE_keep; eauto; vsimp; lia | apply sim_simE; auto].
       + exact I.
-      + exact I.
-      + exact I.
+      + (* BindGlobal *)
+        inversion Hv; subst; clear Hv. destruct e as [sk un]. destruct S as [S1 S2]. destruct F as [F1 F2]. senv.
+        destruct (stk s) as [|x rest] eqn:Es.
+        * apply post_err; auto. split; senv; rewrite ?Es; [eapply simE_keep; eauto; vsimp; lia | apply sim_simE; auto].
+        * apply post_ok; auto. split; senv; auto.
+          change rest with ([] ++ skipn 1 (x :: rest)). apply sim_ao; auto.
       + (* Arr *)
         destruct (vnode (Datatypes.S d) n e) as [e1|] eqn:E1; cbn [opt_bind] in Hv; [|discriminate].
         inversion Hv; subst; clear Hv. cbn [tree_ok] in Ht.
